@@ -27,6 +27,7 @@ func verifyLemma(l *Loaded, cs *ContractSet, lm *Lemma) *FuncResult {
 	tr.oblPrefix = "lemma." + lm.Name
 	st := &State{guard: "true", mem: map[string]Sx{}}
 	tr.regKey("$alloc", nil, "Int")
+	tr.regKey("$world", nil, "Int")
 	env := &Env{tr: tr, vars: map[string]Val{}, st: st, old: st}
 	g := tr.specBool(lm.Clause, env)
 	c.addObl(&Obligation{Name: "lemma." + lm.Name, Kind: "lemma", Guard: "true", Goal: g, Pos: lm.Clause.Text, Func: "lemma." + lm.Name})
@@ -152,37 +153,32 @@ func verifyTable(l *Loaded, cs *ContractSet, tb *TableSpec) *FuncResult {
 	if err := walk(lit, obj.Type(), nil); err != nil {
 		return fail("%v", err)
 	}
-	// one obligation per first index (row)
-	rows := map[int64][]Sx{}
-	var rowKeys []int64
+	// one obligation per cell (solved in one incremental solver run per table)
+	nparams := 0
+	for _, fld := range sf.Decl.Type.Params.List {
+		nparams += len(fld.Names)
+	}
+	byIdx := map[string]Val{}
+	for _, cl := range cells {
+		byIdx[fmt.Sprint(cl.idx)] = cl.v
+	}
 	for _, cl := range cells {
 		var args []Val
+		name := label + "#table"
 		for _, i := range cl.idx {
 			args = append(args, Val{t: c.it.iconst(i), typ: types.Typ[types.Int]})
+			name += fmt.Sprintf("[%d]", i)
 		}
 		args = append(args, cl.v)
-		g := env.inlineSpecVals(sf, args, types.Typ[types.Bool]).t
-		if _, ok := rows[cl.idx[0]]; !ok {
-			rowKeys = append(rowKeys, cl.idx[0])
-		}
-		rows[cl.idx[0]] = append(rows[cl.idx[0]], g)
-	}
-	sort.Slice(rowKeys, func(i, j int) bool { return rowKeys[i] < rowKeys[j] })
-	if len(cells) > 0 && len(cells[0].idx) == 1 {
-		// 1-D: group by blocks of 16 cells
-		blocks := map[int64][]Sx{}
-		for _, k := range rowKeys {
-			blocks[k/16] = append(blocks[k/16], rows[k]...)
-		}
-		for b := int64(0); b <= rowKeys[len(rowKeys)-1]/16; b++ {
-			if gs, ok := blocks[b]; ok {
-				c.addObl(&Obligation{Name: fmt.Sprintf("%s#table[%d..%d]", label, b*16, b*16+15), Kind: "table", Guard: "true", Goal: and(gs...), Pos: tb.SpecFn, Func: label})
+		if nparams == len(cl.idx)+2 && len(cl.idx) == 2 {
+			tv, ok := byIdx[fmt.Sprint([]int64{cl.idx[1], cl.idx[0]})]
+			if !ok {
+				tv = Val{t: "0", typ: cl.v.typ}
 			}
+			args = append(args, tv)
 		}
-	} else {
-		for _, k := range rowKeys {
-			c.addObl(&Obligation{Name: fmt.Sprintf("%s#table[%d]", label, k), Kind: "table", Guard: "true", Goal: and(rows[k]...), Pos: tb.SpecFn, Func: label})
-		}
+		g := env.inlineSpecVals(sf, args, types.Typ[types.Bool]).t
+		c.addObl(&Obligation{Name: name, Kind: "table", Guard: "true", Goal: g, Pos: tb.SpecFn, Func: label})
 	}
 	// frame: no other store
 	g := sp.Var(tb.Global)
